@@ -319,3 +319,142 @@ theorem wmemcmpLoop_eq {st : St} (h : AllRd st) (dlen slen dp sp : Nat) (hle : s
       · simp [hc]
 
 end SafeC
+
+namespace SafeC
+open Gen
+
+/-! ## `strspn` / `strcspn` -/
+
+/-- is `c` among the characters of the string at `p` (at most `n` of them)? -/
+def inSet (d : Nat → Nat) (c p : Nat) : Nat → Bool
+  | 0 => false
+  | n+1 => if d p = 0 then false else if c = d p then true else inSet d c (p+1) n
+
+theorem inSet_iff (d : Nat → Nat) (c p n : Nat) :
+    inSet d c p n = true ↔ ∃ j, j < scanLen d p n ∧ d (p+j) = c := by
+  induction n generalizing p with
+  | zero => simp [inSet, scanLen]
+  | succ n ih =>
+    simp only [inSet, scanLen]
+    by_cases h0 : d p = 0
+    · simp [h0]
+    · simp only [h0, if_false]
+      by_cases hc : c = d p
+      · simp only [hc, if_true, true_iff]; exact ⟨0, by omega, by simp⟩
+      · simp only [hc, if_false]
+        rw [ih (p+1)]
+        constructor
+        · rintro ⟨j, hj, he⟩
+          exact ⟨j+1, by omega, by simpa [Nat.add_assoc, Nat.add_comm 1 j] using he⟩
+        · rintro ⟨j, hj, he⟩
+          cases j with
+          | zero => exact absurd (by simpa using he.symm) hc
+          | succ j => exact ⟨j, by omega, by simpa [Nat.add_assoc, Nat.add_comm 1 j] using he⟩
+
+/-- `strspn` (`want = true`) / `strcspn` (`want = false`) restricted to the first `n` cells of the
+string at `p`, the set being the string at `src` (at most `slen` characters) -/
+def spanLen (d : Nat → Nat) (want : Bool) (src slen p : Nat) : Nat → Nat
+  | 0 => 0
+  | n+1 => if d p = 0 then 0 else if inSet d (d p) src slen = want then 1 + spanLen d want src slen (p+1) n else 0
+
+theorem spanInner_eq {st : St} (h : AllRd st) (dest smax scan2 : Nat) :
+    exec (spanInner dest smax scan2) st = .ok (inSet st.data (st.data dest) scan2 smax, st) := by
+  induction smax generalizing scan2 with
+  | zero =>
+    simp only [spanInner, exec_bind, exec_load_all h, inSet]
+    split <;> simp
+  | succ n ih =>
+    simp only [spanInner, exec_bind, exec_load_all h, inSet]
+    by_cases h0 : st.data scan2 = 0
+    · simp [h0]
+    · simp only [h0, if_false, exec_bind, exec_load_all h]
+      by_cases hc : st.data dest = st.data scan2
+      · simp [hc]
+      · simp only [hc, if_false]; exact ih _
+
+theorem spanOuter_eq {st : St} (h : AllRd st) (want : Bool) (src slen dmax dest count : Nat) :
+    exec (spanOuter want src slen dmax dest count) st =
+      .ok (count + spanLen st.data want src slen dest dmax, st) := by
+  induction dmax generalizing dest count with
+  | zero =>
+    simp only [spanOuter, exec_bind, exec_load_all h, spanLen]
+    split <;> simp
+  | succ n ih =>
+    simp only [spanOuter, exec_bind, exec_load_all h, spanLen]
+    by_cases h0 : st.data dest = 0
+    · simp [h0]
+    · simp only [h0, if_false, exec_bind, spanInner_eq h]
+      by_cases hw : inSet st.data (st.data dest) src slen = want
+      · simp only [hw, if_true]; rw [ih]; congr 2; omega
+      · simp [hw]
+
+end SafeC
+
+namespace SafeC
+open Gen
+
+/-! ## `strcmp` -/
+
+/-- where `strcmp` stops among the first `n` positions: the first index at which either string
+ends or the two differ (`n` if there is none) -/
+def stopIdx (d : Nat → Nat) (p q : Nat) : Nat → Nat
+  | 0 => 0
+  | n+1 => if d p = 0 ∨ d q = 0 ∨ d p ≠ d q then 0 else 1 + stopIdx d (p+1) (q+1) n
+
+theorem stopIdx_spec (d : Nat → Nat) (p q n : Nat) :
+    stopIdx d p q n ≤ n ∧
+    (∀ j, j < stopIdx d p q n → d (p+j) ≠ 0 ∧ d (p+j) = d (q+j)) ∧
+    (stopIdx d p q n < n →
+      d (p + stopIdx d p q n) = 0 ∨ d (q + stopIdx d p q n) = 0 ∨ d (p + stopIdx d p q n) ≠ d (q + stopIdx d p q n)) := by
+  induction n generalizing p q with
+  | zero => simp [stopIdx]
+  | succ n ih =>
+    obtain ⟨i1, i2, i3⟩ := ih (p+1) (q+1)
+    simp only [stopIdx]
+    by_cases hc : d p = 0 ∨ d q = 0 ∨ d p ≠ d q
+    · simp only [hc, if_true]
+      exact ⟨by omega, fun j hj => by omega, fun _ => by simpa using hc⟩
+    · simp only [hc, if_false]
+      have hc' : d p ≠ 0 ∧ d q ≠ 0 ∧ d p = d q := by
+        refine ⟨fun h => hc (Or.inl h), fun h => hc (Or.inr (Or.inl h)), ?_⟩
+        apply Classical.byContradiction; intro h; exact hc (Or.inr (Or.inr h))
+      refine ⟨by omega, ?_, ?_⟩
+      · intro j hj
+        cases j with
+        | zero => exact ⟨by simpa using hc'.1, by simpa using hc'.2.2⟩
+        | succ j => have := i2 j (by omega); simpa [Nat.add_assoc, Nat.add_comm 1 j] using this
+      · intro hlt
+        have := i3 (by omega)
+        simpa [Nat.add_assoc, Nat.add_comm 1] using this
+
+/-- the loop of `strcmp_s` (source object size unknown), on ANY memory: it stops at `stopIdx`
+computed over `dmax` positions and subtracts the two cells found THERE as plain `char`s —
+also when `stopIdx = dmax`, i.e. one past the compared extent -/
+theorem strcmpLoop_eq {st : St} (h : AllRd st) (dmax dest src slen : Nat) :
+    exec (strcmpLoop none dmax dest src slen) st =
+      .ok ((EOK, schar (st.data (dest + stopIdx st.data dest src dmax)) -
+                 schar (st.data (src + stopIdx st.data dest src dmax))), st) := by
+  induction dmax generalizing dest src slen with
+  | zero =>
+    unfold strcmpLoop
+    simp only [exec_bind, exec_load_all h, stopIdx, Nat.add_zero]
+    by_cases h0 : st.data dest = 0
+    · simp [h0, strcmpTail, exec_bind, exec_load_all h]
+    · simp only [h0, if_false, exec_bind, exec_load_all h]
+      by_cases h1 : st.data src = 0 <;> simp [h1, strcmpTail, exec_bind, exec_load_all h]
+  | succ n ih =>
+    unfold strcmpLoop
+    simp only [exec_bind, exec_load_all h, stopIdx]
+    by_cases h0 : st.data dest = 0
+    · simp [h0, strcmpTail, exec_bind, exec_load_all h]
+    · simp only [h0, if_false, exec_bind, exec_load_all h, false_or]
+      by_cases h1 : st.data src = 0
+      · simp [h1, strcmpTail, exec_bind, exec_load_all h]
+      · simp only [h1, if_false, exec_bind, exec_load_all h, false_or]
+        by_cases h2 : st.data dest = st.data src
+        · simp only [h2, ne_eq, not_true_eq_false, if_false, Bool.false_eq_true]
+          rw [ih]
+          simp [Nat.add_assoc, Nat.add_comm 1]
+        · simp [h2, strcmpTail, exec_bind, exec_load_all h]
+
+end SafeC
